@@ -137,11 +137,15 @@ def ob_unital_tp(d, r, form):
     return Obligation("dual_channel.unital_iff_dual_trace_preserving", cfg, build, call, oracle, neg_control=False)
 
 
-def ob_complementary(d, r):
+def ob_complementary(d, r, mixed=False):
     cfg = {"d": d, "rank": r}
+    if mixed:
+        cfg["dtypes"] = "first Kraus operator real (float array in the numeric runs), the others complex"
 
     def build(b):
         A, _ = build_kraus(b, d, d, r, False)
+        if mixed:
+            A = [b.array("A0real", (d, d), "r")] + list(A[1:])
         return {"A": A, "rho": b.array("rho", (d, d), "c")}
 
     def S_of(i):
@@ -187,8 +191,23 @@ def ob_complementary(d, r):
         S = S_of(i)
         exact = eq(S, np.identity(d))
         return ~exact if isinstance(exact, SymBool) else (not exact)
+    def witness():
+        if not mixed:
+            return []
+        # complete families whose first operator is a REAL float array and whose later operators are complex
+        p = 0.3
+        out = []
+        if d == 2:
+            Yp = np.array([[0, -1j], [1j, 0]])
+            ks = [np.sqrt(1 - p) * np.eye(2), np.sqrt(p) * Yp] + [np.zeros((2, 2), dtype=complex)] * (r - 2)
+            out.append({"A": ks, "rho": np.array([[0.7, 0.2 - 0.1j], [0.2 + 0.1j, 0.3]])})
+        U = np.diag(np.exp(2j * np.pi * np.arange(d) / d))
+        ks = [np.sqrt(1 - p) * np.eye(d), np.sqrt(p) * U] + [np.zeros((d, d), dtype=complex)] * (r - 2)
+        rho = np.full((d, d), 1.0 / d, dtype=complex)
+        out.append({"A": ks, "rho": rho})
+        return out
     return Obligation("complementary_channel.entries_trace_and_guard", cfg, build, call, oracle, post=post, exc_post=exc_post,
-                      neg_control=False)
+                      neg_control=False, witness=witness)
 
 
 def ob_complementary_accepts_exact(d):
@@ -255,5 +274,7 @@ def obligations(tier):
         for r in [1, 2, 3]:
             if d * r <= (12 if T else 9):
                 obs.append(ob_complementary(d, r))
+                if r >= 2:
+                    obs.append(ob_complementary(d, r, mixed=True))
         obs.append(ob_complementary_accepts_exact(d))
     return obs
